@@ -131,6 +131,14 @@ def hook(ex, func, argv, frame):
                 raise Panic('slice index out of range in write_all (write returned more than it was given)')
             buf = slice_from(ex, buf, n)
         raise Unsupported('write_all needed more than 4 rounds')
+    if g in ('<[u8] as std::ops::Index>::index', '<[T] as std::ops::Index>::index', 'core::slice::index::<impl std::ops::Index for [T]>::index') and isinstance(deref(a[0]) if isinstance(a[0], Ref) else a[0], ArrSlice):
+        s = deref(a[0]) if isinstance(a[0], Ref) else a[0]
+        r = a[1]
+        start = r.get('start') if 'start' in r.names else 0
+        end = r.get('end') if 'end' in r.names else len(s.items)
+        if not ex.branch(and_(le(start, end), le(end, len(s.items)))):
+            raise Panic('slice index out of range')
+        return True, slice_from(ex, slice_to(ex, s, end), start)
     if g == '<std::io::ErrorKind as std::convert::Into>::into' or (g.endswith('as std::convert::Into>::into') and 'ErrorKind' in f):
         return True, Opaque('ioerror', k=a[0])
     if g == 'std::vec::Vec::with_capacity' or g == 'std::vec::Vec::new':
